@@ -488,7 +488,7 @@ func c12SchedMain(e *Env) {
 			maxExec = "3000000"
 		}
 		cmd := exec.CommandContext(ctx, bin, fmt.Sprint(c.Bound), maxExec, c.Mode, c.Key, c.Text)
-		cmd.Env = append(os.Environ(), "VERIF_SCHED=1", "GOMAXPROCS=4")
+		cmd.Env = append(os.Environ(), "VERIF_SCHED=1", "GOMAXPROCS=4", "VERIF_SCHED_SECONDS="+map[bool]string{true: "900", false: "45"}[e.Thorough])
 		out, err := cmd.Output()
 		timedOut := ctx.Err() == context.DeadlineExceeded
 		cancel()
@@ -699,7 +699,7 @@ func runC12(e *Env) {
 				maxExec = "20000000"
 			}
 			cmd := exec.CommandContext(ctx, sbin, fmt.Sprint(t.bound), maxExec, t.text)
-			cmd.Env = append(os.Environ(), "GOMAXPROCS=2")
+			cmd.Env = append(os.Environ(), "GOMAXPROCS=2", "VERIF_SCHED_SECONDS="+map[bool]string{true: "900", false: "45"}[e.Thorough])
 			out, err := cmd.Output()
 			timedOut := ctx.Err() == context.DeadlineExceeded
 			cancel()
